@@ -4,6 +4,7 @@
 #include "replay.h"
 #include <cstdint>
 #include <ctime>
+#include <cassert>
 #define MG_NATIVE 1
 #define CV_NATIVE 1
 #include "wrap.cc"
@@ -44,6 +45,23 @@ int main(int argc, char **argv)
             if (!r && !may_skip_purge(m)) RP_FAIL("purgesOthers() false for an unsafe method that is not exempt");
             if (r && (m == METHOD_GET || m == METHOD_HEAD)) RP_FAIL("GET/HEAD purge");
         }
+        RP_OK("postconditions hold on this input");
+    }
+    if (mode == "reforward") {
+        int entry_flags = (int)c.num("entry_flags"), pending = (int)c.num("pending"), pinned = (int)c.num("pinned"), n_tries = (int)c.num("n_tries"),
+            max_tries = (int)c.num("max_tries"), have_body = (int)c.num("have_body"), subscribed = (int)c.num("subscribed"), status = (int)c.num("status"),
+            retry_onerror = (int)c.num("retry_onerror"), method = (int)c.num("method");
+        uint64_t consumed = c.unum("consumed"), available_paths = c.unum("available_paths");
+        const bool aborted = (entry_flags & (1 << ENTRY_ABORTED)) != 0, wait = (entry_flags & (1 << ENTRY_FWD_HDR_WAIT)) != 0;
+        if (!pending && !aborted) RP_OK("outside the contract's precondition (complete() runs on a pending entry)");
+        int r = mg_reforward(entry_flags, pending, pinned, n_tries, max_tries, have_body, consumed, available_paths, subscribed, status, retry_onerror, method);
+        printf("flags=0x%x pinned=%d tries=%d/%d body=%d consumed=%llu paths=%llu subscribed=%d status=%d retry_on_error=%d method=%d -> reforward=%d\n",
+               entry_flags & 0xFFFF, pinned, n_tries, max_tries, have_body, (unsigned long long)consumed, (unsigned long long)available_paths, subscribed, status, retry_onerror, method, r);
+        const bool statusOk = status == 502 || status == 504 || ((status == 403 || status == 500 || status == 501 || status == 503) && retry_onerror);
+        if (r != 0 && r != 1) RP_FAIL("not boolean");
+        if (r && !statusOk) RP_FAIL("re-forwarded after a status that is not re-forwardable");
+        if (r && have_body && consumed > 0) RP_FAIL("re-forwarded although request body bytes were consumed");
+        if (r && (aborted || !wait || pinned || n_tries >= max_tries || (!available_paths && !subscribed))) RP_FAIL("re-forwarded although a veto holds");
         RP_OK("postconditions hold on this input");
     }
     if (mode == "check_retry") {
